@@ -184,7 +184,7 @@ pub fn run(tier: &str, only: Option<&Value>) -> i32 {
                         let mut features = vec![];
                         if case.ty.packed {
                             features.push("marker:packed".to_string());
-                            if case.ty.fields.iter().any(|f| matches!(f.ty.by_value_user(), Some("Inner4") | Some("Inner16"))) {
+                            if case.ty.fields.iter().any(|f| matches!(f.ty.by_value_user(), Some("Inner4") | Some("Inner16") | Some("InnerV") | Some("Empty8"))) {
                                 features.push("packed_embeds_user_struct".to_string());
                             }
                         }
